@@ -17,10 +17,10 @@ CTRL_KINDS = ['random', 'bang', 'held', 'beyond', 'zero']
 KICK_KINDS = ['kick', 'spin', 'displace']
 
 
-# mode by run index (16-cycle): 9 momentum, 4 collision, 1 three-body, 2 rest
+# mode by run index (16-cycle): 8 momentum, 4 collision, 1 three-body, 3 rest
 MODE_CYCLE = ['momentum', 'collision', 'momentum', 'rest', 'momentum',
               'collision', 'momentum', 'threebody', 'momentum', 'collision',
-              'momentum', 'rest', 'momentum', 'collision', 'momentum',
+              'momentum', 'rest', 'momentum', 'collision', 'rest',
               'momentum']
 
 
@@ -70,7 +70,8 @@ def evidence_info(prop, tier):
                           'ctrl_bang', 'unstable_gain', 'overflow_lane',
                           'collision_impulse', 'self_collision_model',
                           'multi_body_contact_scene',
-                          'disconnected_components', 'rest_checked'],
+                          'disconnected_components', 'rest_checked',
+                          'rest_near_limit'],
       'assumptions': [
           'momentum is computed from the public state fields mass and xd_i.vel',
           'kicks are re-initialisations through pipeline.init(q+dq, qd+dqd) '
@@ -187,10 +188,11 @@ def generate(prop, tier, seed, run):
                        'v': r.uniform(0.5, 3.0)} for _ in range(B)],
             'x64': wc['x64']}
   model = modelgen.gen_model(r, roots='mixed', gravity=[0.0, 0.0, 0.0],
-                             springs=False, pos_act=False,
+                             springs=False, pos_act=False, limit_p=0.8,
                              max_links=5 if tier == 'quick' else 6)
   return {'mode': 'rest', 'model': model, 'T': r.randint(1, 3),
-          'lanes': [{'seed': r.randint(0, 2**31 - 1)} for _ in range(B)],
+          'lanes': [{'seed': r.randint(0, 2**31 - 1),
+                     'near': int(r.random() < 0.5)} for _ in range(B)],
           'x64': wc['x64']}
 
 
@@ -421,6 +423,24 @@ def _run_rest(g, ctx, sys, x64):
   q0 = np.stack([wl.sample_q(sys, np.random.default_rng(l['seed']), 1, qmax=1.0,
                              inside_limits=True, margin=0.05)[0]
                  for l in g['lanes']])
+  # "any joint configuration inside its limits": half of the lanes sit 2-10 %
+  # of the range away from a bound (|q| <= 1 kept)
+  lo, hi = wl.dof_limits(sys)
+  for b, l in enumerate(g['lanes']):
+    if not l.get('near'):
+      continue
+    rng = np.random.default_rng(l['seed'] + 7)
+    for (t, qi, di) in wl.q_layout(sys):
+      if t == 'f':
+        continue
+      for k in range(int(t)):
+        if np.isfinite(lo[di + k]) and rng.random() < 0.7:
+          w = hi[di + k] - lo[di + k]
+          f = rng.uniform(0.02, 0.1)
+          cand = lo[di + k] + f * w if rng.random() < 0.5 else hi[di + k] - f * w
+          if abs(cand) <= 1.0:
+            q0[b, qi + k] = cand
+            ctx.probe('rest_near_limit')
   ctx.log.inp('q0', q0)
   tol = _tol(x64, 'rest')
   dt = float(sys.opt.timestep)
